@@ -59,3 +59,55 @@ pub fn c25_rune_id_delta_next_inverse() {
     }
   }
 }
+
+// ---- C31: RuneId::from_str.  Text concrete per shape, std number parsing under contract (it may
+// return any value or an error), as for the sat parsers.
+static mut RID_U64: Option<u64> = None;
+static mut RID_U32: Option<u32> = None;
+
+pub fn stub_rid_u64(_s: &str, _r: u32) -> Result<u64, core::num::ParseIntError> {
+  match unsafe { RID_U64 } {
+    Some(v) => Ok(v),
+    None => "x".parse::<u8>().map(u64::from),
+  }
+}
+pub fn stub_rid_u32(_s: &str, _r: u32) -> Result<u32, core::num::ParseIntError> {
+  match unsafe { RID_U32 } {
+    Some(v) => Ok(v),
+    None => "x".parse::<u8>().map(u32::from),
+  }
+}
+
+/// "BLOCK:TX" is accepted exactly when both parts are numbers and yields those numbers; no colon is
+/// Error::Separator; never a panic.
+//# props: C31
+//# kind: complete for the text shapes `B:T` and `BT` (every value or failure of the two parsed components)
+//# fns: RuneId::from_str
+//# assume: std integer parsing is under contract: u64/u32::from_str_radix may return any value or an error (stubs)
+#[cfg_attr(kani, kani::proof)]
+#[cfg_attr(kani, kani::unwind(8))]
+#[cfg_attr(kani, kani::stub(u64::from_str_radix, stub_rid_u64))]
+#[cfg_attr(kani, kani::stub(u32::from_str_radix, stub_rid_u32))]
+pub fn c31_rune_id_from_str() {
+  let b: Option<u64> = kani::any();
+  let t: Option<u32> = kani::any();
+  unsafe {
+    RID_U64 = b;
+    RID_U32 = t;
+  }
+  #[cfg(kani)]
+  let s = String::from("1:2");
+  #[cfg(not(kani))]
+  let s = format!(
+    "{}:{}",
+    b.map(|v| v.to_string()).unwrap_or("x".into()),
+    t.map(|v| v.to_string()).unwrap_or("x".into())
+  );
+  match s.parse::<RuneId>() {
+    Ok(id) => assert!(Some(id.block) == b && Some(id.tx) == t, "C31.rune_id.accepted_id_is_the_two_parsed_numbers"),
+    Err(Error::Block(_)) => assert!(b.is_none(), "C31.rune_id.block_error_only_for_a_bad_block"),
+    Err(Error::Transaction(_)) => assert!(b.is_some() && t.is_none(), "C31.rune_id.tx_error_only_for_a_bad_tx"),
+    Err(Error::Separator) => assert!(false, "C31.rune_id.separator_present"),
+  }
+  assert!(matches!("12".parse::<RuneId>(), Err(Error::Separator)), "C31.rune_id.missing_colon_is_separator_error");
+}
